@@ -490,9 +490,14 @@ func TestSaveSizeSweep(t *testing.T) {
 		for pass := 0; pass < passes; pass++ {
 			mpt := mptkit.NewTrie(util.NewMemoryNodeDB(), int64(pass), nil)
 			keys := 0
+			seenKey := map[string]bool{}
 			for mpt.GetChangeCount() < limit {
 				r := next()
 				p := fmt.Sprintf("%06x", r&0xffffff)
+				if seenKey[p] {
+					continue
+				}
+				seenKey[p] = true
 				if _, err := mpt.Insert(util.Path(p), mptkit.Val([]byte{byte(r >> 24), byte(r >> 32), 0x3a})); err != nil {
 					t.Fatalf("insert: %v", err)
 				}
